@@ -413,6 +413,14 @@ struct RenderTableRow {
 }
 
 impl RenderTableRow {
+    /// Move the content nodes out of all cells.
+    fn take_children(&mut self) -> Vec<RenderNode> {
+        self.cells
+            .iter_mut()
+            .flat_map(|c| std::mem::take(&mut c.content))
+            .collect()
+    }
+
     /// Return a mutable iterator over the cells.
     fn cells(&self) -> std::slice::Iter<RenderTableCell> {
         self.cells.iter()
@@ -662,7 +670,54 @@ struct RenderNode {
     style: ComputedStyle,
 }
 
+/// Dropping a node must not recurse: documents can be nested arbitrarily
+/// deeply, and the default drop glue would use a stack frame per level.
+impl Drop for RenderNode {
+    fn drop(&mut self) {
+        let mut pending = self.info.take_children();
+        while let Some(mut node) = pending.pop() {
+            pending.append(&mut node.info.take_children());
+        }
+    }
+}
+
+impl RenderNodeInfo {
+    /// Move the child nodes out of this node (leaving it without children).
+    fn take_children(&mut self) -> Vec<RenderNode> {
+        use RenderNodeInfo::*;
+        match self {
+            Text(_) | Img(_, _) | Break | FragStart(_) => Vec::new(),
+            Container(v)
+            | Link(_, v)
+            | Em(v)
+            | Strong(v)
+            | Strikeout(v)
+            | Code(v)
+            | Block(v)
+            | Header(_, v)
+            | Div(v)
+            | BlockQuote(v)
+            | Ul(v)
+            | Ol(_, v)
+            | Dl(v)
+            | Dt(v)
+            | Dd(v)
+            | ListItem(v)
+            | Sup(v) => std::mem::take(v),
+            Table(t) => t.rows.iter_mut().flat_map(RenderTableRow::take_children).collect(),
+            TableBody(rows) => rows.iter_mut().flat_map(RenderTableRow::take_children).collect(),
+            TableRow(r, _) => r.take_children(),
+            TableCell(c) => std::mem::take(&mut c.content),
+        }
+    }
+}
+
 impl RenderNode {
+    /// Take the node's info, leaving an empty node behind.
+    fn into_info(mut self) -> RenderNodeInfo {
+        std::mem::replace(&mut self.info, RenderNodeInfo::Break)
+    }
+
     /// Create a node from the RenderNodeInfo.
     fn new(info: RenderNodeInfo) -> RenderNode {
         RenderNode {
@@ -1098,10 +1153,11 @@ fn table_to_render_tree<'a, T: Write>(
     pending(input, move |_, rowset| {
         let mut rows = vec![];
         for bodynode in rowset {
-            if let RenderNodeInfo::TableBody(body) = bodynode.info {
-                rows.extend(body);
-            } else {
-                html_trace!("Found in table: {:?}", bodynode.info);
+            match bodynode.into_info() {
+                RenderNodeInfo::TableBody(body) => rows.extend(body),
+                _other => {
+                    html_trace!("Found in table: {:?}", _other);
+                }
             }
         }
         if rows.is_empty() {
@@ -1125,11 +1181,12 @@ fn tbody_to_render_tree<'a, T: Write>(
         let mut rows = rowchildren
             .into_iter()
             .flat_map(|rownode| {
-                if let RenderNodeInfo::TableRow(row, _) = rownode.info {
-                    Some(row)
-                } else {
-                    html_trace!("  [[tbody child: {:?}]]", rownode);
-                    None
+                match rownode.into_info() {
+                    RenderNodeInfo::TableRow(row, _) => Some(row),
+                    _other => {
+                        html_trace!("  [[tbody child: {:?}]]", _other);
+                        None
+                    }
                 }
             })
             .collect::<Vec<_>>();
@@ -1178,11 +1235,12 @@ fn tr_to_render_tree<'a, T: Write>(
         let cells = cellnodes
             .into_iter()
             .flat_map(|cellnode| {
-                if let RenderNodeInfo::TableCell(cell) = cellnode.info {
-                    Some(cell)
-                } else {
-                    html_trace!("  [[tr child: {:?}]]", cellnode);
-                    None
+                match cellnode.into_info() {
+                    RenderNodeInfo::TableCell(cell) => Some(cell),
+                    _other => {
+                        html_trace!("  [[tr child: {:?}]]", _other);
+                        None
+                    }
                 }
             })
             .collect();
@@ -2029,7 +2087,7 @@ fn do_render_node<T: Write, D: TextDecorator>(
 
     let pushed_style = PushedStyleInfo::apply(renderer, &tree.style);
 
-    Ok(match tree.info {
+    Ok(match tree.into_info() {
         Text(ref tstr) => {
             renderer.add_inline_text(tstr)?;
             pushed_style.unwind(renderer);
